@@ -179,7 +179,7 @@ func apiScenarios() []apiScenario {
 			iv := &types.VectorType{Scalable: true, Len: 2, ElemType: types.I64}
 			e := constant.NewPtrToInt(constant.NewZeroInitializer(pv), iv)
 			expect(e, "<vscale x 2 x i64>")
-			m.NewGlobalDef("g", e)
+			m.NewFunc("f", iv).NewBlock("entry").NewRet(e)
 		}},
 		{"alloca-addrspace", func(m *ir.Module, expect func(value.Value, string)) {
 			f := m.NewFunc("f", types.Void)
@@ -203,6 +203,16 @@ func init() {
 		}
 		sort.Strings(ns)
 		return strings.Join(ns, ",")
+	})
+	reg("api.text", func(a []string) string {
+		for _, s := range apiScenarios() {
+			if s.name == a[0] {
+				m := ir.NewModule()
+				s.build(m, func(value.Value, string) {})
+				return hexOut([]byte(m.String()))
+			}
+		}
+		return "skip"
 	})
 	reg("api.fix", func(a []string) string {
 		if sc == nil {
